@@ -141,13 +141,12 @@ m = m + run
 contract(module="coco.rattoppm", qualname="convert", tag="C19",
          params=RAT_PARAMS, requires=[], check_termination=True,
          loops={
-             0: dict(inv=["n == 6*(%d - ii)" % RAT_N], decreases="L - pos"),
-             1: dict(inv=["n == 6*(%d - ii)" % RAT_N]),
+             0: dict(inv=["n == 6*(%d - ii)" % RAT_N, "ii >= 0"], decreases="L - pos"),
+             1: dict(inv=["n == 6*(%d - ii)" % RAT_N, "ii >= repeat - jj", "ii >= 0"]),
          },
          ensures=[
              dict(id="header", post="hdr == fmt('P6\\n320 199\\n255\\n')"),
-             dict(id="complete", post="n == 3*320*199",
-                  known=[dict(finding="KF-C19-RAT-run-overshoot", when="ii < 0")]),
+             dict(id="complete", post="n == 3*320*199"),
          ],
          raises=[dict(id="loud", exc="*", allowed="True")])
 
@@ -204,15 +203,13 @@ if cnt != 0:
 contract(module="coco.mgetoppm", qualname="convert", tag="C19",
          params=MGE_PARAMS, requires=[], check_termination=True,
          loops={
-             1: dict(inv=["n == 6*(%d - y)" % MGE_N], decreases="L - pos"),
-             2: dict(inv=["n == 6*(%d - y)" % MGE_N]),
+             1: dict(inv=["n == 6*(%d - y)" % MGE_N, "y >= 0"], decreases="L - pos"),
+             2: dict(inv=["n == 6*(%d - y)" % MGE_N, "y >= b - jj", "y >= 0"]),
              3: dict(inv=["n == 6*jj"]),
              4: dict(inv=[], decreases="L - pos"),
          },
          ensures=[dict(id="header", post=MGE_HDR),
-                  dict(id="complete", post="n == 3*320*200",
-                       known=[dict(finding="KF-C19-MGE-early-terminator", when="inp[18] == 0 and y > 0"),
-                              dict(finding="KF-C19-MGE-tokens-after-full", when="inp[18] == 0 and y < 0")])],
+                  dict(id="complete", post="n == 3*320*200")],
          raises=[dict(id="exit-nonzero", exc="SystemExit", allowed="exit_code != 0"),
                  dict(id="loud", exc="TypeError", allowed="True"), dict(id="loud", exc="IndexError", allowed="True"),
                  dict(id="loud", exc="ValueError", allowed="True")])
@@ -262,8 +259,7 @@ contract(module="coco.pixtopgm", qualname="convert", tag="C19", also=["C18"],
                 1: dict(inv=["forall(0, len(s), lambda j: 0 <= s[j] and s[j] <= 255)"])},
          ensures=[dict(id="header", post="hdr == fmt('P5\\n{} {}\\n255\\n', side, side)", props=["C18", "C19"]),
                   dict(id="side", post="side >= 0 and side*side <= 2*L and 2*L < (side+1)*(side+1)", props=["C18"]),
-                  dict(id="complete", post="n == side*side", props=["C18", "C19"],
-                       known=[dict(finding="KF-C19-PIX-non-square-size", when="side*side != 2*L")])],
+                  dict(id="complete", post="n == side*side", props=["C18", "C19"])],
          raises=[dict(id="loud", exc="*", allowed="True")])
 
 # ------------------------------------------------------------------ coco.maxtoppm
@@ -277,15 +273,14 @@ contract(module="coco.maxtoppm", qualname="convert", tag="C19", also=["C18"],
              0: dict(ghost_before="dstart = pos\ncw = cols // 8", ghost_vars=["rs"], ghost_body_start="rs = pos",
                      lemmas=["cw*(jj+1) == cw*jj + cw", "cw >= 0", "implies(jj >= 0, cw*jj >= 0)",
                              "implies(cols % 8 == 0, cols*rows == 8*(cw*rows))"],
-                     inv=["n == 24*(pos - dstart)", "pos <= dstart + cw*jj", "pos == dstart + cw*jj or pos == L", "rows >= 0 or jj == 0"]),
+                     inv=["n == 24*(pos - dstart)", "pos == dstart + cw*jj", "rows >= 0 or jj == 0"]),
              1: dict(counter="bi", inv=["n == 24*(rs - dstart) + 24*bi"]),
          },
          ensures=[dict(id="header", when="result == True", props=["C18", "C19"],
                        post="hdr == fmt('P6\\n{} {}\\n255\\n', max_w(newsroom, cols0, inp, base), max_h(newsroom, cols0, rows0, inp, base))"),
                   dict(id="complete", when="result == True", props=["C18", "C19"],
                        post="n == 3*(cols*rows)",
-                       known=[dict(finding="KF-C18-MAX-width-not-multiple-of-8", when="cols % 8 != 0"),
-                              dict(finding="KF-C19-MAX-short-rows", when="cols % 8 == 0 and pos - dstart < cw*rows")]),
+                       known=[dict(finding="KF-C18-MAX-width-not-multiple-of-8", when="cols % 8 != 0")]),
                   dict(id="result-is-bool", post="result == True or result == False", props=["C19"]),
                   # corrupted header fields are reported unless header errors are to be ignored (documented failure result: False)
                   dict(id="bad-first-byte-is-reported", when="result == True", props=["C19"],
@@ -407,15 +402,14 @@ contract(module="coco.cm3toppm", qualname="convert", tag="C19",
          params=CM3_PARAMS, requires=[], check_termination=True,
          ghost_entry="pages = bitat(inp[0], 7) + 1\ntl = 0",
          loops={
-             0: dict(ghost_vars=["tl"], inv=["n == 960*tl"] + CM3_RANGES),
-             1: dict(ghost_vars=["tl"], ghost_body_end="tl = tl + 1", inv=["n == 960*tl"] + CM3_RANGES),
+             0: dict(ghost_vars=["tl"], inv=["n == 960*tl", "tl == 192*ii"] + CM3_RANGES),
+             1: dict(ghost_vars=["tl"], ghost_body_end="tl = tl + 1", inv=["n == 960*tl", "tl == 192*ii + jj", "lines == 192"] + CM3_RANGES),
              3: dict(inv=["len(buff2) == kk", "forall(0, len(buff2), lambda j: 0 <= buff2[j] and buff2[j] <= 255)"]),
              4: dict(inv=["x == kk", "n == 960*tl + 6*kk", "0 <= bitu and bitu <= 7", "0 <= bity and bity <= 7", "u >= 0", "y >= 0"] + CM3_RANGES),
              5: dict(inv=[], decreases="L - pos"),
          },
          ensures=[dict(id="header", post="hdr == fmt('P6\\n320 {}\\n255\\n', 192*pages)"),
-                  dict(id="complete", post="n == 3*320*(192*pages)",
-                       known=[dict(finding="KF-C19-CM3-line-count", when="tl != 192*pages")])],
+                  dict(id="complete", post="n == 3*320*(192*pages)")],
          raises=[dict(id="loud", exc="*", allowed="True")])
 
 MAX_PX = "forall(0, {K}, lambda t: max_px(out, 24*t, inp[dstart + t], arte))"
@@ -463,6 +457,5 @@ contract(module="coco.veftopng", qualname="start", tag="C19",
                                             "implies(veftype == 5, len(bitmap) == 0)"])},
          # type 5 (640x200x2) is accepted by the type table but has no pixel branch: an empty pixel stream is written and the
          # run then fails loudly inside Pillow's resize (observed natively: OSError) - a reported failure, so no claim is made for it
-         ensures=[dict(id="complete", when="png_written and veftype != 5", post="len(png_bitmap) == png_w*png_h",
-                       known=[dict(finding="KF-C19-VEF-image-data-of-the-wrong-length", when="len(image_data) != ite(veftype == 6, 16000, 32000)")])],
+         ensures=[dict(id="complete", when="png_written", post="len(png_bitmap) == png_w*png_h")],
          raises=[dict(id="exit-nonzero", exc="SystemExit", allowed="exit_code != 0"), dict(id="loud", exc="IndexError", allowed="True")])
